@@ -119,8 +119,8 @@ Print Assumptions C16_wur_only_after_attempted.
 
 Example C16_nonvacuous :
   duration 10 80 1 = 20 /\ duration 10 80 5 = 80 /\
-  timer_ok (r_add (r_new 10 80) (mkObj 1 1 Pending 1) 2 1 false 100) /\
-  r_low_watermark (r_add (r_add (r_new 10 80) (mkObj 1 1 Pending 1) 2 7 false 100) (mkObj 2 1 Pending 2) 3 5 false 100) = 5.
+  timer_ok (r_add (r_new 10 80) (mkObj 1 1 Pending 1 0) 2 1 false 100) /\
+  r_low_watermark (r_add (r_add (r_new 10 80) (mkObj 1 1 Pending 1 0) 2 7 false 100) (mkObj 2 1 Pending 2 0) 3 5 false 100) = 5.
 Proof.
   split; [vm_compute; reflexivity|]. split; [vm_compute; reflexivity|].
   split; [apply add_timer_ok; apply timer_ok_new|vm_compute; reflexivity].
